@@ -267,22 +267,58 @@ func c01Case(r *kit.Run, idx int64, rng *rand.Rand) {
 			ordered = false
 		case "ConcurrentReadOne":
 			wantOut = true
-			ch := make(chan int, n)
-			for _, id := range expect {
-				ch <- id
+			// the interesting moment is the end of the stream (one reader
+			// closes the iterator while another has just received a value):
+			// the input is cut into several short streams, each read to its
+			// end by w concurrent readers of one iterator
+			streams := 1
+			sp := conSp
+			if n >= 8 {
+				streams = 1 + int(seed%6)
 			}
-			close(ch)
-			it := fun.ChannelIterator(ch)
-			var wg sync.WaitGroup
-			for c := 0; c < w; c++ {
-				wg.Add(1)
-				go func(c int) {
-					defer wg.Done()
-					obs.got(drain(ctx, it, conSp, seed+uint64(c), n)...)
-				}(c)
+			if w >= 2 && seed%3 == 0 {
+				// tail race: streams about as long as there are readers, all
+				// readers released together and reading without pauses
+				streams = (n + w - 1) / w
+				sp = kit.Fast
 			}
-			wg.Wait()
-			ordered = w == 1
+			for s := 0; s < streams; s++ {
+				lo, hi := s*n/streams, (s+1)*n/streams
+				readers := w
+				var ch chan int
+				if sp == kit.Fast && w >= 2 && seed%3 == 0 {
+					// readers park in the receive; the last send and the close
+					// wake them together
+					readers = 4 * w
+					ch = make(chan int)
+					go func() {
+						for _, id := range expect[lo:hi] {
+							ch <- id
+						}
+						close(ch)
+					}()
+				} else {
+					ch = make(chan int, hi-lo)
+					for _, id := range expect[lo:hi] {
+						ch <- id
+					}
+					close(ch)
+				}
+				it := fun.ChannelIterator(ch)
+				var wg sync.WaitGroup
+				start := make(chan struct{})
+				for c := 0; c < readers; c++ {
+					wg.Add(1)
+					go func(c int) {
+						defer wg.Done()
+						<-start
+						obs.got(drain(ctx, it, sp, seed+uint64(c), n)...)
+					}(c)
+				}
+				close(start)
+				wg.Wait()
+			}
+			ordered = w == 1 && streams == 1
 		case "WorkerPool":
 			wantInvoked = true
 			ws := make([]fun.Worker, n)
